@@ -306,6 +306,26 @@ fn monotone(ctx: &mut Ctx) {
             let opts = ParseOptions::default();
             let mut e0 = build_engine(&rules, opts, true, optimize);
             e0.use_tags(&tags);
+            // the same relation on a live, optimised Blocker that receives x through add_filter and
+            // is optimised again (lists without $badfilter only)
+            let live = if rules.iter().any(|l| l.contains("badfilter")) {
+                None
+            } else {
+                let mk = |grow: bool| {
+                    let (nf, _) = adblock::lists::parse_filters(&rules, true, opts);
+                    let mut b = adblock::blocker::Blocker::new(nf, &adblock::blocker::BlockerOptions { enable_optimizations: true });
+                    if grow {
+                        let (mut one, _) = adblock::lists::parse_filters([&x], true, opts);
+                        if let Some(f) = one.pop() {
+                            let _ = b.add_filter(f);
+                        }
+                        b.optimize();
+                    }
+                    b.use_tags(&tags);
+                    b
+                };
+                Some((mk(false), mk(true), adblock::resources::ResourceStorage::default()))
+            };
             let pos = r.below(rules.len() + 1);
             rules.insert(pos, x.clone());
             let mut e1 = build_engine(&rules, opts, true, optimize);
@@ -325,6 +345,19 @@ fn monotone(ctx: &mut Ctx) {
                 let b1 = e1.check_network_request(&rq).matched;
                 use adblock::filters::network::NetworkMatchable;
                 let x_matches = x_parsed.matches(&rq, &mut rm);
+                if let Some((l0, l1, st)) = &live {
+                    let (m0, m1) = (l0.check(&rq, st).matched, l1.check(&rq, st).matched);
+                    let bad_live = if x_is_exception { m1 && !m0 } else { m0 && !m1 };
+                    if bad_live {
+                        evs.push((
+                            true,
+                            true,
+                            fnv(&format!("live|{:?}|{}|{}", rules, x, q.url)),
+                            json!({"list": rules, "x_added_through_add_filter_then_optimize": x, "x_is_exception": x_is_exception, "tags": tags,
+                                "url": q.url, "source": q.source, "type": q.rtype, "blocked_before": m0, "blocked_after": m1}),
+                        ));
+                    }
+                }
                 let bad = if x_is_exception { b1 && !b0 } else { b0 && !b1 };
                 evs.push((
                     bad,
